@@ -258,6 +258,59 @@ theorem C10_closure_zh_split (rows : List (ZRow ℝ)) (tempDew : List ℝ) (useD
   obtain ⟨o, ho, h2, _⟩ := ha i r hr
   exact ⟨o, ho, by rw [h2]; ring⟩
 
+/-! ### a bound on ONE of the quantities linked by the closure relation (round 6)
+
+`dhi = ghi − dni·sin(alt)` is a DERIVED output: nothing keeps it above zero (the statement bounds direct normal and
+global only), and wherever it is negative a floor put on it alone – without re-balancing the direct value it was
+derived from – breaks `ghi = dhi + dni·sin(alt)` by exactly the clipped amount.  The region is characterised here;
+the generators reach it (`bound:zh_split:dhi<0`). -/
+
+/-- A floor `b` (resp. a ceiling) on one summand of a relation `x + y = g` keeps the relation exactly where the
+    bound is inactive; where it is active the relation is off by the clipped amount. -/
+theorem C10_bound_on_one_summand (x y g b : ℝ) (h : x + y = g) :
+    (max b x + y = g ↔ b ≤ x) ∧ (min b x + y = g ↔ x ≤ b) ∧
+    max b x + y - g = max b x - x ∧ (x < b → max b x + y - g = b - x) := by
+  refine ⟨?_, ?_, ?_, ?_⟩
+  · constructor
+    · intro hm
+      have : max b x = x := by linarith
+      exact this ▸ le_max_left b x
+    · intro hb
+      rw [max_eq_right hb]; exact h
+  · constructor
+    · intro hm
+      have : min b x = x := by linarith
+      exact this ▸ min_le_left b x
+    · intro hb
+      rw [min_eq_right hb]; exact h
+  · linarith
+  · intro hx
+    rw [max_eq_left hx.le]; linarith
+
+/-- Zhang-Huang split, both variants: the diffuse value of a step is negative exactly where the direct
+    horizontal part `dni·sin(alt)` exceeds the Zhang-Huang global value, and flooring it at zero (the direct value
+    left as it is) keeps `ghi = dhi + dni·sin(alt)` exactly on the steps where it is not negative. -/
+theorem C10_zh_split_dhi_floor (rows : List (ZRow ℝ)) (tempDew : List ℝ) (useDisc : Bool)
+    (out : List (ℝ × ℝ)) (h : zhSplit rows tempDew useDisc = .ok out) (i : Nat) (r : ZRow ℝ)
+    (hr : rows[i]? = some r) : ∃ o, out[i]? = some o ∧
+      (o.2 < 0 ↔ zhGlob r < o.1 * Real.sin (radians r.alt)) ∧
+      (max 0 o.2 + o.1 * Real.sin (radians r.alt) = zhGlob r ↔ 0 ≤ o.2) ∧
+      (o.2 < 0 → max 0 o.2 + o.1 * Real.sin (radians r.alt) - zhGlob r = -o.2) := by
+  obtain ⟨_, ha⟩ := zhSplit_rows rows tempDew useDisc out h
+  obtain ⟨o, ho, h2, _⟩ := ha i r hr
+  have hc : o.2 + o.1 * Real.sin (radians r.alt) = zhGlob r := by rw [h2]; ring
+  obtain ⟨b1, _, _, b4⟩ := C10_bound_on_one_summand o.2 (o.1 * Real.sin (radians r.alt)) (zhGlob r) 0 hc
+  refine ⟨o, ho, ?_, b1, ?_⟩
+  · rw [h2]; constructor <;> intro hh <;> linarith
+  · intro hn
+    have := b4 hn
+    linarith
+
+/-- Re-balanced floor: where the sun is up, `(ghi / sin(alt), 0)` is a pair with diffuse floored at zero that
+    still adds up – the direct value has to move with the floor. -/
+theorem C10_rebalanced_floor (g s : ℝ) (hs : 0 < s) : (0 : ℝ) + g / s * s = g := by
+  rw [div_mul_cancel₀ g hs.ne', zero_add]
+
 /-! ### air mass -/
 
 /-- Absolute air mass is linear in pressure and equals the relative one at 101325 Pa. -/
